@@ -4,9 +4,9 @@
    reachable from them through include statements, named "<full name of the declaring (sub)module>:<name>".
    Every declaration is filed in the identity dictionary under "<full name of the owning module
    revision>:<name>" -- a submodule included by two revisions of its module is filed under both.  There is an
-   edge x -> b for every base statement of x, its argument read in the (sub)module that declares x: no
-   prefix or that module's own prefix search the revisions the declaring (sub)module is filed under, any
-   other prefix the module revision that the first import statement carrying it is bound to (the revision
+   edge x -> b for every base statement of x and every key x is filed under, its argument read in the
+   (sub)module that declares x as part of the revision of that key: no prefix or that module's own prefix
+   search that revision, then the revisions the declaring (sub)module is filed under, any other prefix the module revision that the first import statement carrying it is bound to (the revision
    named by its revision-date when that is loaded, the latest otherwise).  [derived b x]: x reaches b
    through one or more edges.
 
@@ -49,6 +49,11 @@ Definition filed (k : key) (e : entry) : Prop :=
 
 Definition consistent : Prop := forall k e1 e2, filed k e1 -> filed k e2 -> e1 = e2.
 
+(* key k is a key of module revision o *)
+Definition key_owner_of (k : key) (o : module) : Prop :=
+  exists md m i, loaded false md /\ part_of md m /\ In i (m_idents m) /\
+                 o = owner_for sc md m /\ k = identity_key o (i_name i).
+
 (* the module revisions the identities of m are filed under *)
 Definition owner_of (m w : module) : Prop :=
   exists md, loaded false md /\ part_of md m /\ w = owner_for sc md m.
@@ -63,6 +68,7 @@ Definition links_ok : Prop :=
 Variable g : lookup.                       (* the dictionary: key -> declaration *)
 Variable ow : module -> list module.       (* the owners table, in the order identities.find searches it *)
 Variable dl : lookup.                      (* declaration id -> declaration *)
+Variable ko : key -> option module.        (* the module revision a dictionary entry is filed under *)
 
 (* x names a declaration that is filed in the dictionary *)
 Definition declares (x : key) (e : entry) : Prop := did_of e = x /\ exists k, g k = Some e.
@@ -83,30 +89,36 @@ Inductive first_import : list (string * string * string) -> string -> string -> 
 | fi_here p n d r : first_import ((p, n, d) :: r) p n d
 | fi_later p' n' d' r p n d : p' <> p -> first_import r p n d -> first_import ((p', n', d') :: r) p n d.
 
-(* the module revisions searched for a name with prefix pfx written inside (sub)module md *)
-Inductive search_list (md : module) (pfx : string) : list module -> Prop :=
-| sl_local : pfx = "" \/ pfx = m_prefix md -> search_list md pfx (ow md)
+(* the module revisions searched for a name with prefix pfx written inside (sub)module md, the statement read
+   as part of module revision o (None: on its own, as the type statement of an identityref is): a local name
+   is searched in o first *)
+Inductive search_list (o : option module) (md : module) (pfx : string) : list module -> Prop :=
+| sl_local : pfx = "" \/ pfx = m_prefix md ->
+    search_list o md pfx (match o with Some x => x :: ow md | None => ow md end)
 | sl_import n d ext : pfx <> "" -> pfx <> m_prefix md ->
     first_import (m_imports md) pfx n d -> find_module sc false n d = Some ext ->
-    search_list md pfx (ow ext).
+    search_list o md pfx (ow ext).
 
 (* the first of them that files the name *)
 Inductive found (nm : string) : list module -> entry -> Prop :=
 | found_here o r e : g (identity_key o nm) = Some e -> found nm (o :: r) e
 | found_later o r e : g (identity_key o nm) = None -> found nm r e -> found nm (o :: r) e.
 
-(* base argument s, written inside md, names declaration e *)
-Definition resolves (md : module) (s : string) (e : entry) : Prop :=
-  exists pfx nm l, splits s pfx nm /\ search_list md pfx l /\ found nm l e.
+(* base argument s, written inside md and read as part of o, names declaration e *)
+Definition resolves (o : option module) (md : module) (s : string) (e : entry) : Prop :=
+  exists pfx nm l, splits s pfx nm /\ search_list o md pfx l /\ found nm l e.
 
+(* one edge per dictionary entry and base statement: a declaration filed under several revisions has its
+   bases resolved within each of them *)
 Definition edge (x b : key) : Prop :=
-  exists ex s eb, declares x ex /\ In s (i_bases (snd ex)) /\ resolves (fst ex) s eb /\ b = did_of eb.
+  exists k ex s eb, g k = Some ex /\ did_of ex = x /\ In s (i_bases (snd ex)) /\
+                    resolves (ko k) (fst ex) s eb /\ b = did_of eb.
 
 (* x is derived from b *)
 Definition derived (b x : key) : Prop := clos_trans key (fun u v => edge v u) b x.
 
 Definition all_resolve : Prop :=
-  forall k e s, g k = Some e -> In s (i_bases (snd e)) -> exists eb, resolves (fst e) s eb.
+  forall k e s, g k = Some e -> In s (i_bases (snd e)) -> exists eb, resolves (ko k) (fst e) s eb.
 
 Definition acyclic : Prop := forall x, ~ derived x x.
 
